@@ -2,6 +2,7 @@
 import json, os, random
 from .. import core
 from ..core import Run, ToolError
+from . import cstr
 
 
 def trace_cfg(run):
@@ -41,7 +42,9 @@ def check(tier):
         cases = [c for c in cases if c["fam"] not in big or c["via"] == "ref" or rnd.random() < 0.5]
     run.case_of = lambda ev: cases[ev["case"]] if "case" in ev and ev["case"] < len(cases) else None
     events = drive_and_validate(run, cases, shards=8 if tier == "quick" else 16)
-    run.cov["evaluations"] = len(cases)
+    # character string values as lexical items: every spelling with doubled quotes, spacing and line breaks (CString.tla)
+    cs_events = cstr.family(run, tier, "value")
+    run.cov["evaluations"] = len(cases) + len(cs_events)
     by = {}
     for e in events:
         k = f"{e['fam']}/{e['pos']}"
@@ -68,6 +71,11 @@ def check(tier):
 def replay(payload):
     run = Run("C07", "quick")
     case = payload.get("case")
+    if payload.get("event", {}).get("ev") == "cstr":
+        cstr.replay_one(run, payload["event"], "value")
+        for what, e in run.violations:
+            print("MISMATCH:", what)
+        return 1 if run.violations else 0
     if case is None:
         print("replay file carries no case")
         return 2
